@@ -83,18 +83,26 @@ def body(c, judge):
         t[i]["dq"][0] = {"s": 1, "m": [0, 0, 0, 0, 0, 0, 7]}
         ctrls.append(("rescale-off", t))
     else:
-        t, i = find(lambda e: e["op"] == "slice" and e["after"]["kind"] == "QBytes")
-        t[i]["after"]["shape"] = t[i]["before"]["shape"]
-        ctrls.append(("stale-shape", t))
-        t, i = find(lambda e: e["op"] == "to" and e["after"]["kind"] == "QBytes")
-        t[i]["after"]["pdtype"] = "float16"
-        ctrls.append(("payload-converted", t))
-        t, i = find(lambda e: e["op"] == "clone" and e["after"]["kind"] == "QBytes" and len(e["after"]["codes"]) > 1)
-        t[i]["after"]["codes"][0] = [1, 99]
-        ctrls.append(("codes-altered", t))
-        t, i = find(lambda e: e["op"] == "t" and e["after"]["kind"] == "QBytes" and e["after"]["axis"] != "none")
-        t[i]["after"]["axis"] = "first" if t[i]["after"]["axis"] == "last" else "last"
-        ctrls.append(("axis-not-flipped", t))
+        # (an operation that never returns a quantized value on this tree is C05's business - it raises or falls back -;
+        #  the control built on it is then skipped, at least two controls must remain)
+        def control(name, pred, corrupt):
+            try:
+                t, i = find(pred)
+            except MachineryError:
+                c.notes.append(f"negative control {name} skipped: no such step returned a quantized value")
+                return
+            corrupt(t[i])
+            ctrls.append((name, t))
+        control("stale-shape", lambda e: e["op"] == "slice" and e["after"]["kind"] == "QBytes",
+                lambda e: e["after"].__setitem__("shape", e["before"]["shape"]))
+        control("payload-converted", lambda e: e["op"] == "to" and e["after"]["kind"] == "QBytes",
+                lambda e: e["after"].__setitem__("pdtype", "float16"))
+        control("codes-altered", lambda e: e["op"] == "clone" and e["after"]["kind"] == "QBytes" and len(e["after"]["codes"]) > 1,
+                lambda e: e["after"]["codes"].__setitem__(0, [1, 99]))
+        control("axis-not-flipped", lambda e: e["op"] == "t" and e["after"]["kind"] == "QBytes" and e["after"]["axis"] != "none",
+                lambda e: e["after"].__setitem__("axis", "first" if e["after"]["axis"] == "last" else "last"))
+        if len(ctrls) < 2:
+            raise MachineryError("fewer than two negative controls could be built")
     c.negative_controls("Trace_TensorOps", ctrls, constants=consts)
     c.assumptions += ["Deq(result) is quanto's own dequantize(), whose correctness is the subject of C01/C02",
                       "operands of where() stay inside the input's quantization range; lattice operand values",
